@@ -61,6 +61,9 @@ RECURSIVE MaxBig(_)
 MaxBig(s) == IF Len(s) = 1 THEN s[1]
              ELSE LET m == MaxBig(Tail(s)) IN IF Leq(m, Head(s)) THEN Head(s) ELSE m
 
+MaxOfSu(su) == IF su[1] = "u" THEN su[2]
+               ELSE LET vs == { su[2][j] : j \in 1..5 } \ {-1}
+                    IN IF vs = {} THEN 0 ELSE CHOOSE m \in vs : \A v \in vs : v <= m
 C03V(r) ==
   LET nl == r.nl  ob == r.notes
       In(k) == ob[k].t \in TicksOf(nl)
@@ -69,6 +72,12 @@ C03V(r) ==
       TupleOk(su) == su[1] = "t" => \E i, j \in 1..5 : su[2][i] # -1 /\ su[2][j] # -1 /\ su[2][i] # su[2][j]
   IN
   IF \E k \in DOMAIN ob : ~TupleOk(ob[k].su) THEN <<"fail", "a-tuple-only-when-the-reported-lanes-differ">>
+  \* what an event says about ITSELF needs no reading of the lines either (round 10, seeded/C11j: a lane written twice): its
+  \* longest sustain is the maximum of the sustain it reports, its end tick is its tick plus that, its end time is the
+  \* tempo-map time of that end tick
+  ELSE IF \E k \in DOMAIN ob : ob[k].lg # MaxOfSu(ob[k].su) THEN <<"fail", "longest-is-the-maximum-of-the-reported-sustain">>
+  ELSE IF \E k \in DOMAIN ob : ob[k].et # ob[k].t + ob[k].lg THEN <<"fail", "end-tick-is-tick-plus-longest">>
+  ELSE IF r.raised = "" /\ \E k \in DOMAIN ob : ob[k].eus # ob[k].qe THEN <<"fail", "end-time-is-time-of-end-tick">>
   ELSE IF ~(WellFormedTrack(nl) /\ OpenLineFirst(nl)) THEN Skip("not-well-formed")
   ELSE IF r.first /\ nl # <<>> /\ ForcedAt(nl, MinTick(nl)) THEN Skip("forced-first-note")
   \* (the statement is about the note events of a well-formed section: a section that is rejected has none of them)
@@ -354,6 +363,10 @@ C16V(r) ==
         target == Mul(FromNat(c * 1000000), r.den)          \* exact rate = target / (D * den) per second
     IN FirstFail(<<
       <<"positive-interval-returns-a-rate", r.raised = "">>,
+      \* bounds and notes on one clock: a note's start (end) time is the tempo-map time of its tick (end tick), the same
+      \* un-hinted query that turns a tick bound into a time (r.noteq / r.endq; <<>> where that query refuses)
+      <<"note-times-are-the-tempo-map-times-of-their-ticks",
+          \A k \in DOMAIN r.notes : (r.noteq[k] # <<>> => r.notes[k] = r.noteq[k]) /\ (r.endq[k] # <<>> => r.ends[k] = r.endq[k])>>,
       <<"rate-is-count-in-closed-interval-over-length",
           r.raised = "" => Leq(Mul(AbsDiff(Mul(r.num, D), target), Pow2(50)), target)>>
     >>)
